@@ -28,7 +28,7 @@ _REF: Optional[dict] = None
 # The list was fixed by replaying the 53 behaviour-preserving refactorings of seeded_benign/ with the net disabled: every
 # rule that fired on one of them is a matcher and is listed; the rules not listed stayed silent on all of them.
 NET_APPLIES = {
-    "root-unique", "root-position-corrected", "root-evaluates-once", "root-cost", "root-fitness",
+    "root-unique", "root-pairing", "root-position-corrected", "root-evaluates-once", "root-cost", "root-fitness",
     "greedy-population-pairing", "greedy-shape", "weight-count-mismatch-rejected", "negative-weights-rejected", "entry-guard",
     "valueerror-only", "list-or-float-arithmetic", "rate-value", "diff-value", "stop-on-current-rate", "one-rate-per-cycle",
     "same-count-as-serial", "gather-exactly-once", "one-future-per-item", "pool-hand-off", "generate-agents-exact",
